@@ -15,7 +15,7 @@ def main():
         name = pid + var
         wt = '/tmp/wt/verify_' + name
         subprocess.run(['git', '-C', '/repo', 'worktree', 'remove', '--force', wt], capture_output=True)
-        subprocess.check_call(['git', '-C', '/repo', 'worktree', 'add', '-q', '--detach', wt, 'HEAD'])
+        subprocess.check_call(['git', '-C', '/repo', 'worktree', 'add', '-q', '--detach', wt, os.environ.get('SEED_BASE', 'HEAD')])
         res = {'seed': name, 'property': pid}
         try:
             meta = json.load(open(src + '/meta.json'))
